@@ -1,5 +1,8 @@
 import Mouette.Lemmas.C20SourceRun
+import Mouette.Lemmas.UnionFindC
+import Mouette.Lemmas.UFSourceComps
 import Mouette.Props.C20
+import Mouette.Props.C20Height
 /-!
 # C20 (round 3) - the theorems of `Props/C20.lean` transferred to what the SOURCE says now
 
@@ -27,13 +30,18 @@ open Mouette.Generated
 /-- the history of the non-vacuity examples (same as `Props/C20.lean`): a tree of depth 2, a late add, a repeated add -/
 private def hist : List Op := [.union 1 2, .union 3 4, .union 2 4, .add 9, .add 1]
 
--- the extracted definitions, run on it: `_indx` is kept, the forest is the model's, `find 4` really halves a path
-example : (srcRun hist).indx = [(9, 4), (4, 3), (3, 2), (2, 1), (1, 0)] ∧ (srcRun hist).par = [0, 0, 0, 2, 4] ∧
-    (C20.find (srcRun hist) 4).map (fun r => (r.1.par, r.2)) = some ([0, 0, 0, 0, 4], 0) ∧
+-- the extracted definitions, run on it (facts that do not depend on which root a link on equal sizes keeps, so that the
+-- example holds for either spelling of the size test): `_indx` is kept, `find` returns a root, the same for 1 and 4
+example : (srcRun hist).indx = [(9, 4), (4, 3), (3, 2), (2, 1), (1, 0)] ∧ (srcRun hist).elts = [1, 2, 3, 4, 9] ∧
+    (srcRun hist).par ≠ List.range 5 ∧
+    (C20.find (srcRun hist) 4).map (fun r => decide (parent r.1.par r.2 = r.2)) = some true ∧
+    (C20.find (srcRun hist) 4).map Prod.snd = (C20.find (srcRun hist) 1).map Prod.snd ∧
     C20.find (srcRun hist) 7 = none ∧
     (C20.connected (srcRun hist) 1 4).map Prod.snd = some true ∧
     (C20.component (srcRun hist) 4).map Prod.snd = some [1, 2, 3, 4] ∧
-    (C20.roots (srcRun hist)).map Prod.snd = some [0, 4] ∧
+    (C20.roots (srcRun hist)).map (fun r => r.2.length) = some 2 ∧
+    (C20.components (srcRun hist)).map (fun r => r.2.length) = some 2 ∧
+    (C20.getitem (srcRun hist) 4).map Prod.snd = some 9 ∧ C20.getitem (srcRun hist) 5 = none ∧
     (C20.ctor C20.init [5, 6, 5, 7, 6]).elts = [5, 6, 7] ∧ C20.len (C20.ctor C20.init [5, 6, 5, 7, 6]) = 3 := by decide
 
 theorem init_bridge : C20.init.toState = UF.init ∧ IndxInv C20.init := ⟨rfl, indxInv_init⟩
@@ -155,8 +163,17 @@ theorem find_some {g : St} (h : IndxInv g) {x : Nat} (hx : x ∈ g.elts) :
     rw [hf] at b
     exact ⟨g', r, rfl, b.symm, c g' r hf⟩
 
+/-- the size comparison of `union`, whichever way the source spells it today (`<` or `<=`), orders by size: the smaller
+tree goes under the larger one. (Every history theorem below holds for an ARBITRARY comparison; only the height bound of
+`Props/C20Height.lean` needs this.) -/
+theorem sizCmp_is_size_order : SizeOrder C20.sizCmp :=
+  ⟨fun a b h => by simp [C20.sizCmp] at h; omega, fun a b h => by simp [C20.sizCmp] at h; omega⟩
+
+example : C20.sizCmp 1 2 = true ∧ C20.sizCmp 2 1 = false := by decide
+
+/-- the extracted `union` never raises and is the model's `unionC` with the comparison the source uses -/
 theorem union_bridge {g : St} (h : IndxInv g) (x y : Nat) :
-    ∃ g', C20.union g x y = some (g', ()) ∧ g'.toState = UF.union g.toState x y ∧ IndxInv g' := by
+    ∃ g', C20.union g x y = some (g', ()) ∧ g'.toState = UF.unionC C20.sizCmp g.toState x y ∧ IndxInv g' := by
   -- the two guarded adds are the model's two adds
   have hadd : ∀ (g0 : St), IndxInv g0 → ∀ z,
       (if (!C20.contains g0 z) = true then C20.add g0 z else g0) = C20.add g0 z := by
@@ -176,7 +193,7 @@ theorem union_bridge {g : St} (h : IndxInv g) (x y : Nat) :
     rw [a2, mem_add_elts]; exact Or.inr rfl
   obtain ⟨g3, xr, f3, m3, i3, e3⟩ := find_some i2 hx2
   obtain ⟨g4, yr, f4, m4, i4, e4⟩ := find_some i3 (by rw [e3]; exact hy2)
-  unfold C20.union UF.union
+  unfold C20.union UF.unionC
   simp only [hadd g h x, hadd _ i1 y, f3, f4]
   rw [← a1, ← a2, m3]
   simp only []
@@ -186,12 +203,12 @@ theorem union_bridge {g : St} (h : IndxInv g) (x y : Nat) :
   · simp only [hr, decide_true, if_true]
     exact ⟨g4, rfl, rfl, i4⟩
   · simp only [hr, decide_false, Bool.false_eq_true, if_false]
-    by_cases hs : sizAt g4.siz xr < sizAt g4.siz yr
-    · have hs' : g4.toState.siz.getD xr 0 < g4.toState.siz.getD yr 0 := hs
-      simp only [hs, hs', decide_true, if_true]
+    by_cases hs : C20.sizCmp (sizAt g4.siz xr) (sizAt g4.siz yr) = true
+    · have hs' : C20.sizCmp (g4.toState.siz.getD xr 0) (g4.toState.siz.getD yr 0) = true := hs
+      simp only [hs, hs', if_true]
       exact ⟨_, rfl, rfl, i4.congr rfl rfl rfl⟩
-    · have hs' : ¬ g4.toState.siz.getD xr 0 < g4.toState.siz.getD yr 0 := hs
-      simp only [hs, hs', decide_false, Bool.false_eq_true, if_false]
+    · have hs' : ¬ C20.sizCmp (g4.toState.siz.getD xr 0) (g4.toState.siz.getD yr 0) = true := hs
+      simp only [hs, hs']
       exact ⟨_, rfl, rfl, i4.congr rfl rfl rfl⟩
 
 theorem rootsStep_bridge {g : St} (h : IndxInv g) {e : Nat} (he : e ∈ g.elts) (out : List Nat) :
@@ -277,31 +294,140 @@ theorem component_bridge {g : St} (h : IndxInv g) (x : Nat) :
     simp only [hm, Bool.not_false, if_true, Bool.false_eq_true, if_false]
     exact ⟨rfl, fun _ _ e => by cases e⟩
 
+/-! ## `__getitem__` and `components()` -/
+
+/-- `uf[i]`: IndexError exactly outside `0 <= i < len(_elts)`, otherwise the element stored at position `i`; no state change -/
+theorem getitem_bridge {g : St} (h : IndxInv g) (i : Nat) :
+    C20.getitem g i = if i < g.elts.length then some (g, g.toState.elts.getD i 0) else none := by
+  by_cases hi : i < g.elts.length
+  · have h1 : ¬ g.elts.length ≤ i := by omega
+    simp [C20.getitem, h.next, hi, h1, UFS.eltAt, St.toState]
+  · have h1 : g.elts.length ≤ i := by omega
+    simp [C20.getitem, h.next, hi, h1]
+
+theorem compsFold_none (ids : Dict) : ∀ (l : List Nat), l.foldl (C20.componentsFor1Step ids) none = none := by
+  intro l
+  induction l with
+  | nil => rfl
+  | cons e l ih => rw [List.foldl_cons]; exact ih
+
+/-- the loop of `components()`: the state is threaded through the `find`s (which only halve paths), the buckets are
+filled as by the pure fold `bucketStep` keyed by the class root of the state the loop started in -/
+theorem compsFold_bridge (ids : Dict) {g0 : St} (inv0 : Inv g0.toState) : ∀ (l : List Nat) (g : St) (bs : List (List Nat)),
+    IndxInv g → Inv g.toState → PEquiv g0.toState g.toState → (∀ e, e ∈ l → e ∈ g.elts) →
+    ∃ g', l.foldl (C20.componentsFor1Step ids) (some (g, bs))
+        = (l.foldl (bucketStep ids (classOf g0.toState)) (some bs)).map (fun b => (g', b)) ∧
+      IndxInv g' ∧ g'.elts = g.elts ∧ Inv g'.toState ∧ PEquiv g0.toState g'.toState := by
+  intro l
+  induction l with
+  | nil => intro g bs h inv pe _; exact ⟨g, rfl, h, rfl, inv, pe⟩
+  | cons e l ih =>
+    intro g bs h inv pe hm
+    have he : e ∈ g.elts := hm e (List.mem_cons_self ..)
+    have he' : e ∈ g.toState.elts := he
+    obtain ⟨g1, r, f, m, i1, e1⟩ := find_some h he
+    obtain ⟨s', r', hf, inv1, pe1, hreach, _⟩ := find_spec inv he'
+    rw [m] at hf
+    injection hf with hf; injection hf with hs hr
+    subst hs hr
+    have hcls : r = classOf g0.toState e := by
+      have h1 : classOf g.toState e = r := (rootOf_eq_iff inv (idxOf_lt he') r).mpr hreach
+      have he0 : e ∈ g0.toState.elts := by rw [← pe.elts]; exact he'
+      rw [← h1, pe.classOf inv0 inv he0]
+    have hm1 : ∀ z, z ∈ l → z ∈ g1.elts := fun z hz => by rw [e1]; exact hm z (List.mem_cons_of_mem _ hz)
+    rw [List.foldl_cons, List.foldl_cons]
+    have step1 : C20.componentsFor1Step ids (some (g, bs)) e
+        = match dlookup ids r with
+          | none => none
+          | some i => (bucketAppend bs i e).map (fun b => (g1, b)) := by
+      simp only [C20.componentsFor1Step, f]
+      cases dlookup ids r with
+      | none => rfl
+      | some i => simp only []; cases bucketAppend bs i e <;> rfl
+    have step2 : bucketStep ids (classOf g0.toState) (some bs) e
+        = match dlookup ids r with
+          | none => none
+          | some i => bucketAppend bs i e := by
+      simp only [bucketStep, ← hcls]
+      rfl
+    rw [step1, step2]
+    cases dlookup ids r with
+    | none =>
+      refine ⟨g1, ?_, i1, e1, inv1, pe.trans pe1⟩
+      simp only [compsFold_none, bucketFold_none, Option.map_none]
+    | some i =>
+      simp only []
+      cases hb : bucketAppend bs i e with
+      | none =>
+        refine ⟨g1, ?_, i1, e1, inv1, pe.trans pe1⟩
+        simp only [Option.map_none, compsFold_none, bucketFold_none]
+      | some bs' =>
+        obtain ⟨g2, s2, i2, e2, inv2, pe2⟩ := ih g1 bs' i1 inv1 (pe.trans pe1) hm1
+        exact ⟨g2, by simpa using s2, i2, e2.trans e1, inv2, pe2⟩
+
+/-- BRIDGE for `components()` (translated as the fold it is): on every state satisfying the invariant it does not raise
+(neither the KeyError of `root_ids[…]` nor the IndexError of `components[i]`), returns exactly the listing of the hand
+model `UF.components` - one bucket per distinct root, each holding the elements of that class in `_elts` order - and only
+halves paths (`PEquiv`: same elements, counters, sizes, same roots) -/
+theorem components_bridge {g : St} (h : IndxInv g) (inv : Inv g.toState) :
+    ∃ g', C20.components g = some (g', (UF.components g.toState).2) ∧ IndxInv g' ∧ g'.elts = g.elts ∧
+      Inv g'.toState ∧ PEquiv g.toState g'.toState := by
+  obtain ⟨g1, hr, t1, i1, e1⟩ := roots_bridge h
+  obtain ⟨inv1', pe1', _⟩ := rootsList_spec inv
+  have inv1 : Inv g1.toState := by rw [t1]; exact inv1'
+  have pe1 : PEquiv g.toState g1.toState := by rw [t1]; exact pe1'
+  have hrs : (rootsList g.toState).2 = g.toState.elts.map (classOf g.toState) := rootsList_snd inv
+  have hn : (setOf (rootsList g.toState).2).Nodup := nodup_eraseDups _ _ (Nat.le_refl _)
+  obtain ⟨g2, s2, i2, e2, inv2, pe2⟩ := compsFold_bridge
+    (dictOf ((enumerate (setOf (rootsList g.toState).2)).map (fun (p : Nat × Nat) => (p.2, p.1)))) inv1 g1.elts g1
+    ((setOf (rootsList g.toState).2).map (fun _ => ([] : List Nat))) i1 inv1 (PEquiv.refl _) (fun _ hz => hz)
+  have hcls : ∀ e, e ∈ g.toState.elts → classOf g1.toState e = classOf g.toState e :=
+    fun e he => pe1.classOf inv inv1 he
+  rw [bucketFold_spec hn (fun r hr => rootIds_lookup hn hr) (classOf g1.toState) g1.elts (fun _ => [])] at s2
+  · refine ⟨g2, ?_, i2, e2.trans e1, inv2, pe1.trans pe2⟩
+    unfold C20.components
+    simp only [hr, s2, Option.map_some]
+    obtain ⟨s', hc, _, _⟩ := UF.components_spec inv
+    rw [hc]
+    simp only [hrs, setOf, List.nil_append]
+    congr 2
+    apply List.map_congr_left
+    intro r _
+    unfold classList
+    rw [e1]
+    apply List.filter_congr
+    intro e he
+    rw [hcls e he]
+  · intro e he
+    rw [e1] at he
+    rw [hcls e he, mem_setOf, hrs]
+    exact List.mem_map.mpr ⟨e, he, rfl⟩
+
 /-! ## histories on the translated definitions -/
 
 theorem srcStep_bridge {g : St} (h : IndxInv g) (op : Op) :
-    (srcStep g op).toState = UF.step g.toState op ∧ IndxInv (srcStep g op) := by
+    (srcStep g op).toState = UF.stepC C20.sizCmp g.toState op ∧ IndxInv (srcStep g op) := by
   cases op with
   | add x => exact addStep_bridge h x
   | union x y =>
     obtain ⟨g', e, t, i⟩ := union_bridge h x y
-    simp only [srcStep, e, UF.step]
+    simp only [srcStep, e, UF.stepC]
     exact ⟨t, i⟩
   | find x =>
     obtain ⟨b, c⟩ := find_bridge h x
-    simp only [srcStep, UF.step]
+    simp only [srcStep, UF.stepC]
     cases hf : C20.find g x with
     | none => rw [hf] at b; rw [← b]; exact ⟨rfl, h⟩
     | some r => obtain ⟨g', r⟩ := r; rw [hf] at b; rw [← b]; exact ⟨rfl, (c g' r hf).1⟩
   | connected x y =>
     obtain ⟨b, c⟩ := connected_bridge h x y
-    simp only [srcStep, UF.step]
+    simp only [srcStep, UF.stepC]
     cases hf : C20.connected g x y with
     | none => rw [hf] at b; rw [← b]; exact ⟨rfl, h⟩
     | some r => obtain ⟨g', r⟩ := r; rw [hf] at b; rw [← b]; exact ⟨rfl, (c g' r hf).1⟩
   | component x =>
     obtain ⟨b, c⟩ := component_bridge h x
-    simp only [srcStep, UF.step]
+    simp only [srcStep, UF.stepC]
     cases hf : C20.component g x with
     | none =>
       rw [hf] at b
@@ -320,7 +446,7 @@ theorem srcStep_bridge {g : St} (h : IndxInv g) (op : Op) :
         exact ⟨b1, (c g' l hf).1⟩
 
 theorem srcFold_bridge : ∀ (ops : List Op) (g : St), IndxInv g →
-    (ops.foldl srcStep g).toState = ops.foldl UF.step g.toState ∧ IndxInv (ops.foldl srcStep g) := by
+    (ops.foldl srcStep g).toState = ops.foldl (UF.stepC C20.sizCmp) g.toState ∧ IndxInv (ops.foldl srcStep g) := by
   intro ops
   induction ops with
   | nil => intro g h; exact ⟨rfl, h⟩
@@ -333,7 +459,7 @@ theorem srcFold_bridge : ∀ (ops : List Op) (g : St), IndxInv g →
 /-- THE TRANSFER: a history run on the definitions extracted from the source reaches, field by field, the state the hand
 model reaches (and `_indx` stays the inverse of `_elts`); every theorem of `Props/C20.lean` about `run ops` is thereby a
 theorem about what unionfind.py says now. -/
-theorem srcRun_bridge (ops : List Op) : (srcRun ops).toState = UF.run ops ∧ IndxInv (srcRun ops) :=
+theorem srcRun_bridge (ops : List Op) : (srcRun ops).toState = UF.runC C20.sizCmp ops ∧ IndxInv (srcRun ops) :=
   srcFold_bridge ops C20.init init_bridge.2
 
 /-- `UnionFind(elements)` is the fold of `add` over the container, duplicates included. -/
@@ -348,17 +474,49 @@ theorem ctor_bridge (elements : List Nat) {g : St} (h : IndxInv g) :
     exact ih b
 
 theorem ctor_is_history (elements : List Nat) :
-    (C20.ctor C20.init elements).toState = UF.run (elements.map .add) := by
+    (C20.ctor C20.init elements).toState = UF.runC C20.sizCmp (elements.map .add) := by
   rw [(ctor_bridge elements init_bridge.2).1]
-  show elements.foldl UF.add UF.init = (elements.map Op.add).foldl UF.step UF.init
+  show elements.foldl UF.add UF.init = (elements.map Op.add).foldl (UF.stepC C20.sizCmp) UF.init
   rw [List.foldl_map]
   rfl
 
 theorem srcRunFrom_bridge (elements : List Nat) (ops : List Op) :
-    (srcRunFrom elements ops).toState = UF.run (elements.map .add ++ ops) ∧ IndxInv (srcRunFrom elements ops) := by
+    (srcRunFrom elements ops).toState = UF.runC C20.sizCmp (elements.map .add ++ ops) ∧ IndxInv (srcRunFrom elements ops) := by
   obtain ⟨a, b⟩ := srcFold_bridge ops (C20.ctor C20.init elements) (ctor_bridge elements init_bridge.2).2
   refine ⟨?_, b⟩
-  rw [srcRunFrom, a, ctor_is_history, UF.run, UF.run, List.foldl_append]
+  rw [srcRunFrom, a, ctor_is_history, UF.runC, UF.runC, List.foldl_append]
+
+/-! ## the history theorems of `Props/C20.lean` for an ARBITRARY size comparison
+
+(`Props/C20.lean` states them for `run`, i.e. the comparison `<`; which root survives a link never matters for them) -/
+
+/-- `uf_refines` for `union` with any size comparison `c` -/
+theorem uf_refinesC (c : Nat → Nat → Bool) (ops : List Op) (x y : Nat) (hx : x ∈ (runC c ops).elts)
+    (hy : y ∈ (runC c ops).elts) :
+    ∃ s' b, connected (runC c ops) x y = some (s', b) ∧ (b = true ↔ Joined ops x y) := by
+  obtain ⟨s', b, hc, _, _, hb⟩ := connected_spec (inv_runC c ops) hx hy
+  exact ⟨s', b, hc, hb.trans ((refines_runC c ops).cls x y hx hy)⟩
+
+theorem elts_eq_presentC (c : Nat → Nat → Bool) (ops : List Op) (x : Nat) :
+    x ∈ (runC c ops).elts ↔ x ∈ present ops := (refines_runC c ops).mem x
+
+theorem countsC (c : Nat → Nat → Bool) (ops : List Op) :
+    (runC c ops).nElts = (runC c ops).elts.length ∧ (runC c ops).elts.Nodup ∧
+    (runC c ops).nElts = (present ops).eraseDups.length ∧
+    (runC c ops).nComps = ((List.range (runC c ops).elts.length).filter
+      (fun i => decide (parent (runC c ops).par i = i))).length := by
+  have inv := inv_runC c ops
+  refine ⟨inv.nEltsEq, inv.nodup, ?_, nComps_eq_rootIdxs inv⟩
+  rw [inv.nEltsEq]
+  apply List.Perm.length_eq
+  rw [List.perm_ext_iff_of_nodup inv.nodup (nodup_eraseDups _ _ (Nat.le_refl _))]
+  intro x
+  rw [List.mem_eraseDups]
+  exact elts_eq_presentC c ops x
+
+-- both spellings of the size test give the same partition but not the same forest: `<=` keeps the OTHER root on equal sizes
+example : (runC ltCmp [.union 1 2]).par = [0, 0] ∧ (runC leCmp [.union 1 2]).par = [1, 1] ∧
+    (connected (runC leCmp [.union 1 2, .union 3 4, .union 2 4]) 1 3).map Prod.snd = some true := by decide
 
 /-! ## headline theorems, restated on the translated definitions -/
 
@@ -369,9 +527,9 @@ theorem uf_refines_source (ops : List Op) (x y : Nat) (hx : x ∈ (srcRun ops).e
     ∃ g' b, C20.connected (srcRun ops) x y = some (g', b) ∧ (b = true ↔ Joined ops x y) := by
   obtain ⟨t, i⟩ := srcRun_bridge ops
   obtain ⟨bc, _⟩ := connected_bridge i x y
-  have hx' : x ∈ (UF.run ops).elts := by rw [← t]; exact hx
-  have hy' : y ∈ (UF.run ops).elts := by rw [← t]; exact hy
-  obtain ⟨s', b, hc, hb⟩ := Mouette.Props.C20.uf_refines ops x y hx' hy'
+  have hx' : x ∈ (UF.runC C20.sizCmp ops).elts := by rw [← t]; exact hx
+  have hy' : y ∈ (UF.runC C20.sizCmp ops).elts := by rw [← t]; exact hy
+  obtain ⟨s', b, hc, hb⟩ := uf_refinesC C20.sizCmp ops x y hx' hy'
   rw [t, hc] at bc
   cases hf : C20.connected (srcRun ops) x y with
   | none => rw [hf] at bc; cases bc
@@ -389,9 +547,9 @@ theorem uf_refines_source_from (elements : List Nat) (ops : List Op) (x y : Nat)
       (b = true ↔ Joined (elements.map .add ++ ops) x y) := by
   obtain ⟨t, i⟩ := srcRunFrom_bridge elements ops
   obtain ⟨bc, _⟩ := connected_bridge i x y
-  have hx' : x ∈ (UF.run (elements.map .add ++ ops)).elts := by rw [← t]; exact hx
-  have hy' : y ∈ (UF.run (elements.map .add ++ ops)).elts := by rw [← t]; exact hy
-  obtain ⟨s', b, hc, hb⟩ := Mouette.Props.C20.uf_refines _ x y hx' hy'
+  have hx' : x ∈ (UF.runC C20.sizCmp (elements.map .add ++ ops)).elts := by rw [← t]; exact hx
+  have hy' : y ∈ (UF.runC C20.sizCmp (elements.map .add ++ ops)).elts := by rw [← t]; exact hy
+  obtain ⟨s', b, hc, hb⟩ := uf_refinesC C20.sizCmp _ x y hx' hy'
   rw [t, hc] at bc
   cases hf : C20.connected (srcRunFrom elements ops) x y with
   | none => rw [hf] at bc; cases bc
@@ -410,19 +568,19 @@ theorem counts_source (ops : List Op) :
     (srcRun ops).nComps = ((List.range (srcRun ops).elts.length).filter
       (fun i => decide (parent (srcRun ops).par i = i))).length := by
   obtain ⟨t, i⟩ := srcRun_bridge ops
-  obtain ⟨c1, c2, c3, c4⟩ := Mouette.Props.C20.counts ops
+  obtain ⟨c1, c2, c3, c4⟩ := countsC C20.sizCmp ops
   rw [← t] at c1 c2 c3 c4
   refine ⟨c1, c2, fun x => ?_, c3, c4⟩
   rw [contains_bridge i, mem_iff, t]
-  exact Mouette.Props.C20.elts_eq_present ops x
+  exact elts_eq_presentC C20.sizCmp ops x
 
 /-- the extracted `union` never raises, whatever its arguments (absent ones are added first) -/
 theorem union_total_source (ops : List Op) (x y : Nat) :
-    ∃ g', C20.union (srcRun ops) x y = some (g', ()) ∧ g'.toState = UF.run (ops ++ [.union x y]) := by
+    ∃ g', C20.union (srcRun ops) x y = some (g', ()) ∧ g'.toState = UF.runC C20.sizCmp (ops ++ [.union x y]) := by
   obtain ⟨t, i⟩ := srcRun_bridge ops
   obtain ⟨g', e, t', _⟩ := union_bridge i x y
   refine ⟨g', e, ?_⟩
-  rw [t', t, UF.run, UF.run, List.foldl_append]
+  rw [t', t, UF.runC, UF.runC, List.foldl_append]
   rfl
 
 /-- the extracted `find` raises exactly on absent elements; on present ones it returns the class root, a root index in
@@ -430,16 +588,17 @@ range -/
 theorem find_root_source (ops : List Op) (x : Nat) :
     (C20.find (srcRun ops) x = none ↔ x ∉ present ops) ∧
     (x ∈ present ops → ∃ g' r, C20.find (srcRun ops) x = some (g', r) ∧ r < (srcRun ops).elts.length ∧
-      parent g'.par r = r ∧ r = classOf (UF.run ops) x ∧ g'.toState = UF.step (UF.run ops) (.find x)) := by
+      parent g'.par r = r ∧ r = classOf (UF.runC C20.sizCmp ops) x ∧
+      g'.toState = UF.step (UF.runC C20.sizCmp ops) (.find x)) := by
   obtain ⟨t, i⟩ := srcRun_bridge ops
   obtain ⟨b, _⟩ := find_bridge i x
   rw [t] at b
   constructor
-  · rw [← Mouette.Props.C20.elts_eq_present, ← Mouette.Props.C20.find_none_iff, ← b]
+  · rw [← elts_eq_presentC C20.sizCmp, ← Mouette.Props.C20.find_none_iff, ← b]
     cases C20.find (srcRun ops) x <;> simp [lift]
   · intro hx
-    have hx' := (Mouette.Props.C20.elts_eq_present ops x).mpr hx
-    obtain ⟨s', r, hf, hlt, hroot, hcls, _⟩ := Mouette.Props.C20.find_root (UF.inv_run ops) hx'
+    have hx' := (elts_eq_presentC C20.sizCmp ops x).mpr hx
+    obtain ⟨s', r, hf, hlt, hroot, hcls, _⟩ := Mouette.Props.C20.find_root (UF.inv_runC C20.sizCmp ops) hx'
     rw [hf] at b
     cases hg : C20.find (srcRun ops) x with
     | none => rw [hg] at b; cases b
@@ -450,7 +609,7 @@ theorem find_root_source (ops : List Op) (x : Nat) :
       injection b with b; injection b with b1 b2
       subst b2
       refine ⟨g', r', rfl, ?_, ?_, hcls, ?_⟩
-      · have : (srcRun ops).elts = (UF.run ops).elts := by rw [← t]; rfl
+      · have : (srcRun ops).elts = (UF.runC C20.sizCmp ops).elts := by rw [← t]; rfl
         rw [this]; exact hlt
       · have : g'.par = s'.par := by rw [← b1]; rfl
         rw [this]; exact hroot
@@ -463,7 +622,7 @@ theorem find_terminates_source (ops : List Op) (p : Nat) (hp : p < (srcRun ops).
     C20.findCond (C20.findLoop (srcRun ops).par.length (srcRun ops) p).1
       (C20.findLoop (srcRun ops).par.length (srcRun ops) p).2 = false := by
   obtain ⟨t, _⟩ := srcRun_bridge ops
-  have inv := UF.inv_run ops
+  have inv := UF.inv_runC C20.sizCmp ops
   rw [← t] at inv
   obtain ⟨rk, w⟩ := inv.wf
   have w' : WF (srcRun ops).par rk := w
@@ -475,6 +634,92 @@ theorem find_terminates_source (ops : List Op) (p : Nat) (hp : p < (srcRun ops).
     rw [this]
     simp
 
+/-- QUANTITATIVE termination (strengthens `find_terminates_source`): union by size keeps every tree of height at most
+log2(number of elements), so on every reachable state the Python `while` of `find` exits by its own condition within
+`log2 n` iterations from any stored index - for either spelling (`<` / `<=`) of the size test the source may use -/
+theorem find_terminates_log_source (ops : List Op) (p : Nat) (hp : p < (srcRun ops).elts.length) (k : Nat) :
+    C20.findLoop (Nat.log2 (srcRun ops).elts.length + k) (srcRun ops) p
+      = C20.findLoop (Nat.log2 (srcRun ops).elts.length) (srcRun ops) p ∧
+    C20.findCond (C20.findLoop (Nat.log2 (srcRun ops).elts.length) (srcRun ops) p).1
+      (C20.findLoop (Nat.log2 (srcRun ops).elts.length) (srcRun ops) p).2 = false ∧
+    C20.findLoop (srcRun ops).par.length (srcRun ops) p
+      = C20.findLoop (Nat.log2 (srcRun ops).elts.length) (srcRun ops) p := by
+  obtain ⟨t, _⟩ := srcRun_bridge ops
+  have he : (UF.runC C20.sizCmp ops).elts = (srcRun ops).elts := by rw [← t]; rfl
+  have hpar : (UF.runC C20.sizCmp ops).par = (srcRun ops).par := by rw [← t]; rfl
+  have hp' : p < (UF.runC C20.sizCmp ops).elts.length := by rw [he]; exact hp
+  obtain ⟨a, _, c⟩ := Mouette.Props.C20Height.find_within_log2_n C20.sizCmp sizCmp_is_size_order ops p hp'
+  rw [he, hpar] at a c
+  have hlen : (srcRun ops).par.length = (srcRun ops).elts.length := by
+    have := (UF.inv_runC C20.sizCmp ops).parLen
+    rwa [he, hpar] at this
+  refine ⟨?_, ?_, ?_⟩
+  · rw [findLoop_bridge, findLoop_bridge, a k]
+  · rw [findLoop_bridge, (findLoopBody_bridge _ _).1]
+    simp only []
+    rw [c]
+    simp
+  · have hle : Nat.log2 (srcRun ops).elts.length ≤ (srcRun ops).par.length := by
+      rw [hlen]; exact Nat.log2_le_self _
+    obtain ⟨d, hd⟩ := Nat.exists_eq_add_of_le hle
+    rw [findLoop_bridge, findLoop_bridge, hd, a d]
+
+-- non-vacuity: a binomial tree of 8 elements really needs log2 8 = 3 iterations from its deepest index, and 3 suffice
+-- (the first history builds it when the size test is `<`, its mirror image when it is `<=`)
+example : let g := srcRun [.union 1 2, .union 3 4, .union 1 3, .union 5 6, .union 7 8, .union 5 7, .union 1 5]
+    let g' := srcRun [.union 2 1, .union 4 3, .union 3 1, .union 6 5, .union 8 7, .union 7 5, .union 5 1]
+    Nat.log2 g.elts.length = 3 ∧ Nat.log2 g'.elts.length = 3 ∧
+    (∀ p, p < 8 → C20.findCond (C20.findLoop 3 g p).1 (C20.findLoop 3 g p).2 = false) ∧
+    (∀ p, p < 8 → C20.findCond (C20.findLoop 3 g' p).1 (C20.findLoop 3 g' p).2 = false) ∧
+    ((∃ p, p < 8 ∧ C20.findCond (C20.findLoop 2 g p).1 (C20.findLoop 2 g p).2 = true) ∨
+     (∃ p, p < 8 ∧ C20.findCond (C20.findLoop 2 g' p).1 (C20.findLoop 2 g' p).2 = true)) := by decide
+
+/-- union by size on the source: after any history the `_siz` cell of every root index is the number of elements of its
+class, for either spelling of the size test -/
+theorem siz_root_eq_card_source (ops : List Op) (r : Nat) (hr : r < (srcRun ops).elts.length)
+    (hroot : parent (srcRun ops).par r = r) : sizAt (srcRun ops).siz r = card (srcRun ops).toState r := by
+  obtain ⟨t, _⟩ := srcRun_bridge ops
+  have h := sizeInv_runC C20.sizCmp ops
+  rw [← t] at h
+  exact h r hr hroot
+
+example : (srcRun hist).siz.length = 5 ∧
+    (∀ r, r < 5 → parent (srcRun hist).par r = r → sizAt (srcRun hist).siz r = card (srcRun hist).toState r) ∧
+    (∃ r, r < 5 ∧ parent (srcRun hist).par r = r ∧ sizAt (srcRun hist).siz r = 4) := by decide
+
+/-- `components()` on the source, after ANY history: it does not raise, only halves paths, returns exactly `n_comps`
+buckets, every bucket is the full `Joined`-class of one of its members, and every present element lies in exactly one
+bucket -/
+theorem components_source (ops : List Op) :
+    ∃ g' cs, C20.components (srcRun ops) = some (g', cs) ∧ PEquiv (srcRun ops).toState g'.toState ∧
+      cs.length = (srcRun ops).nComps ∧
+      (∀ c, c ∈ cs → ∃ x, x ∈ c ∧ ∀ e, e ∈ c ↔ (e ∈ present ops ∧ Joined ops e x)) ∧
+      (∀ e, e ∈ present ops → ∃ c, (c ∈ cs ∧ e ∈ c) ∧ ∀ c', (c' ∈ cs ∧ e ∈ c') → c' = c) := by
+  obtain ⟨t, i⟩ := srcRun_bridge ops
+  have inv := UF.inv_runC C20.sizCmp ops
+  have rf := refines_runC C20.sizCmp ops
+  rw [← t] at inv rf
+  obtain ⟨g', hc, _, _, _, pe⟩ := components_bridge i inv
+  obtain ⟨s', cs, hm, _, _, hlen, hcls, huniq⟩ := Mouette.Props.C20.components_spec inv
+  have hcs : (UF.components (srcRun ops).toState).2 = cs := by rw [hm]
+  rw [hcs] at hc
+  refine ⟨g', cs, hc, pe, hlen, ?_, ?_⟩
+  · intro c hcm
+    obtain ⟨x, hx, hmem⟩ := hcls c hcm
+    have hx' := ((hmem x).mp hx).1
+    refine ⟨x, hx, fun e => ?_⟩
+    rw [hmem e]
+    constructor
+    · rintro ⟨he, hce⟩; exact ⟨(rf.mem e).mp he, (rf.cls e x he hx').mp hce⟩
+    · rintro ⟨he, hj⟩
+      have he' := (rf.mem e).mpr he
+      exact ⟨he', (rf.cls e x he' hx').mpr hj⟩
+  · intro e he
+    exact huniq e ((rf.mem e).mpr he)
+
+example : (C20.components (srcRun hist)).map (fun r => r.2.map List.length) = some [4, 1] ∨
+    (C20.components (srcRun hist)).map (fun r => r.2.map List.length) = some [1, 4] := by decide
+
 /-! ## descriptor tables -/
 
 /-- every attribute of a `UnionFind` is created by an assignment on `self` in `__init__`: instance state, nothing in the
@@ -482,15 +727,13 @@ class body -/
 theorem uf_attrs_are_instance_state :
     C20.initAttrs.map Prod.snd = List.replicate 7 AttrHome.instance ∧ C20.initAttrs.length = 7 := by decide
 
-/-- `find` and `component` raise `ValueError`, and these are the only `raise` statements of the translated methods -/
-theorem raises_bridge : C20.raisesTable.map Prod.snd = [PyExc.valueError, PyExc.valueError] ∧
-    C20.raisesTable.map Prod.fst = ["find", "component"] := ⟨by decide, rfl⟩
-
-/-- `components()` has the shape the hand model's `components` was written from: `roots()`, one bucket per root, each
-element appended to the bucket of its `find` -/
-theorem components_shape_bridge : C20.componentsShape =
-    ["v0 = self.roots()", "v1 = dict(((v2, v3) for v3, v2 in enumerate(v0)))", "v4 = [[] for v5 in v0]",
-     "for v6 in self._elts: ;     v3 = v1[self.find(v6)] ;     v4[v3].append(v6)", "return v4"] := rfl
+/-- `find` and `component` raise `ValueError`, `__getitem__` raises `IndexError`, each of them does have a `raise`, and
+these are the only `raise` statements of the translated methods (however many guards each method spells them with) -/
+theorem raises_bridge :
+    (∀ p, p ∈ C20.raisesTable → ((p.1 = "find" ∨ p.1 = "component") ∧ p.2 = PyExc.valueError) ∨
+      (p.1 = "getitem" ∧ p.2 = PyExc.indexError)) ∧
+    "find" ∈ C20.raisesTable.map Prod.fst ∧ "component" ∈ C20.raisesTable.map Prod.fst ∧
+    "getitem" ∈ C20.raisesTable.map Prod.fst := by decide
 
 /-- `component_mapping()`: elements grouped by their `find` into sets, every member mapped to its group -/
 theorem component_mapping_shape_bridge : C20.componentMappingShape =
@@ -652,7 +895,7 @@ theorem pq_instances_isolated (ops : List (Nat × QOp)) (i : Nat) :
 /-- the same for `UnionFind` (all seven attributes are created in `__init__`) -/
 theorem uf_instances_isolated (ops : List (Nat × Op)) (i : Nat) :
     (runTagged .instance srcStep C20.init ops).get .instance i = srcRun (project i ops) ∧
-    ((runTagged .instance srcStep C20.init ops).get .instance i).toState = UF.run (project i ops) := by
+    ((runTagged .instance srcStep C20.init ops).get .instance i).toState = UF.runC C20.sizCmp (project i ops) := by
   have := runTagged_instance srcStep C20.init ops i
   exact ⟨this, by rw [this]; exact (srcRun_bridge _).1⟩
 
